@@ -5,11 +5,16 @@ import (
 	rt "github.com/vx-labs/wasp/v4/zzsymxrt"
 )
 
+// symxGossipLog keeps every broadcast ever exchanged, for late / reordered delivery to a third node.
+var symxGossipLog [][]byte
+
 func symxExchange(a, b *symxBroker) {
 	for _, p := range rt.Drain(a.bq) {
+		symxGossipLog = append(symxGossipLog, p)
 		b.state.Distributor().NotifyMsg(p)
 	}
 	for _, p := range rt.Drain(b.bq) {
+		symxGossipLog = append(symxGossipLog, p)
 		a.state.Distributor().NotifyMsg(p)
 	}
 }
@@ -21,6 +26,7 @@ func symxExchange(a, b *symxBroker) {
 // keep-alive exchange, and tearing the old one down does not touch the new one.
 func symxC12() {
 	steps := rt.Param("events", 2)
+	symxGossipLog = nil
 	b1, b2 := symxNewBroker(1, 1), symxNewBroker(2, 1)
 	p1, p2 := b1.start(nil), b2.start(nil)
 	f1 := p1.front(&symxAuth{mountPoint: "m", ids: []string{"old", "new1"}})
@@ -111,6 +117,20 @@ func symxC12() {
 		rt.Assert(found, "C12.new_sessions_subscription_survives_old_teardown")
 	}
 	rt.Assert(newB.local.Get(newID) != nil, "C12.new_session_still_registered")
+	// a third node hears the same gossip late and out of order (the solver swaps two broadcasts)
+	b3 := symxNewBroker(3, 1)
+	log := append([][]byte(nil), symxGossipLog...)
+	if n := len(log); n >= 2 {
+		i, j := int(rt.Int("swap_a", 0, int64(n-1))), int(rt.Int("swap_b", 0, int64(n-1)))
+		log[i], log[j] = log[j], log[i]
+	}
+	for _, p := range log {
+		b3.state.Distributor().NotifyMsg(p)
+	}
+	md3, err3 := b3.state.SessionMetadatas().ByClientID("m", "cid")
+	rt.Assert(err3 == nil && md3.SessionID == newID, "C12.a_node_hearing_the_gossip_out_of_order_resolves_to_the_new_session")
+	rt.Assert(len(b3.state.SessionMetadatas().All()) == 1, "C12.only_the_new_session_is_listed_on_a_late_node")
+	b3.cancel()
 	rt.Cover(newB == b2, "C12.takeover_across_nodes")
 	b1.cancel()
 	b2.cancel()
